@@ -22,11 +22,13 @@ LANGS = {
 }
 
 class Template:
-    def __init__(self, name, lang, nnames, ops, analysis='()', distinct=None, note='', group=None):
+    def __init__(self, name, lang, nnames, ops, analysis='()', distinct=None, note='', group=None, late=None):
         self.name, self.lang, self.nnames, self.ops, self.analysis, self.note = name, lang, nnames, ops, analysis, note
         self.group = group        # templates of one group are reorderings of the same history (C12)
+        self.light = False        # light = EGraph::check() and the enode consistency walk only after the last operation
+        self.late = late or {}    # name index -> op index at which the name is first written by the user (pattern slots): it may equal any slot issued before that point
         self.distinct = distinct      # optional list of name-index groups assumed pairwise distinct (tied-name variants)
-    def key(self): return json.dumps([self.name, self.lang, self.nnames, self.ops, self.analysis, self.distinct], sort_keys=True, default=list)
+    def key(self): return json.dumps([self.name, self.lang, self.nnames, self.ops, self.analysis, self.distinct, sorted(self.late.items()), self.light], sort_keys=True, default=list)
     def terms(self):
         """all (sub)terms that get a handle, in order of first insertion"""
         out = []
@@ -35,13 +37,16 @@ class Template:
                 if kind == 'c': rec(a)
             if t not in out: out.append(t)
         for op in self.ops:
-            if op[0] in ('add', 'lookup', 'readd'): rec(op[1])
+            if op[0] in ('add', 'lookup', 'readd', 'probe'): rec(op[1])
         return out
     def describe(self):
         def show(t):
+            if isinstance(t, str): return t
+            if isinstance(t, (list, tuple)) and t and isinstance(t[0], (list, tuple)): return '[' + ', '.join(show(x) for x in t) + ']'
+            if t[0] == 'rule': return '%s: %s => %s' % (t[1], show(t[2]), show(t[3]))
             sig = O.SIG[t[0]]
-            return '(' + t[0] + ''.join(' $' + 'abcdefghij'[a] if k in 'sb' else ' ' + show(a) for k, a in zip(sig, t[1:])) + ')'
-        return '; '.join(op[0] + ' ' + ' '.join(show(x) if isinstance(x, tuple) else str(x) for x in op[1:]) for op in self.ops)
+            return '(' + t[0] + ''.join(' $' + 'abcdefghijklmnop'[a] if k in 'sb' else ' ' + show(a) for k, a in zip(sig, t[1:])) + ')'
+        return '; '.join(op[0] + ' ' + ' '.join(show(x) if isinstance(x, (tuple, list, str)) else str(x) for x in op[1:]) for op in self.ops)
 
 def name_precondition(N, f0=F0_DEFAULT):
     cs = []
@@ -51,6 +56,17 @@ def name_precondition(N, f0=F0_DEFAULT):
         cs.append(z3.Implies(r == 1, z3.ULT(n, z3.BitVecVal(f0, 32))))   # fresh-class names were issued before the history starts
         cs.append(z3.Implies(r == 2, z3.ULT(n, z3.BitVecVal(4 * NAMED_MAX, 32))))
     return cs
+
+class PatStr:
+    """stands for the text of a pattern whose value is already built (Pattern::parse is decided by C18)"""
+    def __init__(self, pat): self.pat = pat
+
+from .models import M as _M
+@_M.add(r'^parse::<impl (rewrite::pattern::)?Pattern<L>>::parse$|Pattern::<.*>::parse$', front=True, first=True)
+def _m_parse_patstr(ex, c, args, m):
+    a = dd(args[0])
+    if isinstance(a, PatStr): return ok(cp(a.pat))
+    return NotImplemented
 
 class SymRun:
     """executes a template on an executor; collects snapshots"""
@@ -73,7 +89,7 @@ class SymRun:
         self.R.tymap.clear(); self.R.tymap.update({'L': self.lang, 'N': self.t.analysis, 'CF': 'AstSize'})
         f0 = self.opts.get('f0', F0_DEFAULT)
         ex.table['tab'] = Struct({0: z3.BitVecVal(f0, 32), 1: Opaque('named_vec'), 2: Opaque('named_map')}, 'SlotTable')
-        for c in name_precondition(self.N, f0): ex.assume(c)
+        for c in name_precondition([n for i, n in enumerate(self.N) if i not in self.t.late], f0): ex.assume(c)
         if self.t.distinct:
             for grp in self.t.distinct: ex.assume(z3.Distinct(*[self.N[i] for i in grp]))
         for c in self.opts.get('assume', lambda N: [])(self.N): ex.assume(c)
@@ -112,7 +128,10 @@ class SymRun:
         try:
             self.setup()
             self.snapshot(('new',))
-            for op in self.t.ops:
+            for k, op in enumerate(self.t.ops):
+                late = [self.N[i] for i, at in self.t.late.items() if at == k]
+                if late:
+                    for c in name_precondition(late, conc(ex.table['tab'].f[0])): ex.assume(c)
                 self.step(op)
                 self.snapshot(op)
         except Panic as p:
@@ -134,7 +153,103 @@ class SymRun:
                                     'eq_old': self.eq(h, self.handles[op[1]]) if op[1] in self.handles else None,
                                     'lookup_eq_add': self.eq(lk, h) if lk is not None else None}}
             return
+        if op[0] == 'probe':
+            h = self.lookup_full(op[1])
+            self.extra = {'probe': {'found': h is not None}}
+            if h is not None and op[1] not in self.handles: self.handles[op[1]] = h; self.order.append(op[1])
+            elif h is None and op[1] not in self.handles: self.handles[op[1]] = None; self.order.append(op[1])
+            return
+        if op[0] == 'ematch':
+            pat = {'p': self.pat_value(op[1])}
+            before = self.fingerprint()
+            ms = ex.call(self.M('ematch_all'), [self.egref, Ref(pat, 'p')])
+            out = []
+            for sub in ms.items:
+                bound = sorted(str(k) for k, _ in sub.items)
+                inst = self.lookup_pattern(op[1], sub)
+                out.append({'bound': bound, 'found': inst is not None, 'inst': self.describe_handle(inst) if inst is not None else None,
+                            'binds': {str(k): self.describe_handle(v) for k, v in sub.items}})
+            self.extra = {'ematch': {'matches': out, 'unchanged': self.fingerprint() == before}}
+            return
+        if op[0] == 'rewrite':
+            rws = [self.mk_rewrite(r) for r in op[1]]
+            r = ex.call(self.M('apply_rewrites'), [self.egref, SliceRef(rws, 0, len(rws))])
+            self.extra = {'rewrite_ret': ex.decide(r) if z3.is_expr(r) else bool(r)}
+            return
         raise Unsupported('template op ' + str(op[0]))
+
+    # ---- patterns / rewrites
+    def null_id(self): return Struct({0: Struct({0: U64(0)}, 'Id'), 1: Struct({0: SVec([])}, 'SlotMap')}, 'AppliedId')
+    def pat_value(self, p):
+        E = self.S.enums
+        if isinstance(p, str): return Enum(E['Pattern::PVar'], Struct({0: PyStr(p[1:])}), 'Pattern')
+        vname, sig = self.variants[p[0]]
+        fields = {}; kids = []; i = 1; fi = 0; pending = None
+        for kind in sig:
+            a = p[i]; i += 1
+            if kind == 's': fields[fi] = slot(self.N[a]); fi += 1
+            elif kind == 'b': pending = a
+            else:
+                kids.append(self.pat_value(a))
+                if pending is not None: fields[fi] = Struct({0: slot(self.N[pending]), 1: self.null_id()}, 'Bind'); pending = None
+                else: fields[fi] = self.null_id()
+                fi += 1
+        node = Enum(E[self.lang + '::' + vname], Struct(fields), self.lang)
+        return Enum(E['Pattern::ENode'], Struct({0: node, 1: VecVal(kids)}), 'Pattern')
+    def mk_rewrite(self, rule):
+        _, name, lhs, rhs = rule
+        return self.ex.call(self.M('Rewrite::new'), [PyStr(name), PatStr(self.pat_value(lhs)), PatStr(self.pat_value(rhs))])
+    def lookup_pattern(self, p, sub):
+        """instantiate the pattern with the substitution using EGraph::lookup only (nothing is inserted); None if some node is not represented"""
+        if isinstance(p, str):
+            for k, v in sub.items:
+                if str(k) == p[1:]: return v
+            return None
+        vname, sig = self.variants[p[0]]
+        fields = {}; i = 1; fi = 0; pending = None
+        for kind in sig:
+            a = p[i]; i += 1
+            if kind == 's': fields[fi] = slot(self.N[a]); fi += 1
+            elif kind == 'b': pending = a
+            else:
+                ch = self.lookup_pattern(a, sub)
+                if ch is None: return None
+                ch = cp(ch)
+                if pending is not None: fields[fi] = Struct({0: slot(self.N[pending]), 1: ch}, 'Bind'); pending = None
+                else: fields[fi] = ch
+                fi += 1
+        cell = {'n': Enum(self.S.enums[self.lang + '::' + vname], Struct(fields), self.lang)}
+        r = self.ex.call(self.M('EGraph::lookup'), [self.egref, Ref(cell, 'n')])
+        return r.payload.f[0] if r.disc == 1 else None
+    def lookup_full(self, term):
+        """lookup of a whole term bottom-up without inserting"""
+        hs = {}
+        def rec(t):
+            if t in self.handles and self.handles[t] is not None: return self.handles[t]
+            vname, sig = self.variants[t[0]]
+            fields = {}; i = 1; fi = 0; pending = None
+            for kind in sig:
+                a = t[i]; i += 1
+                if kind == 's': fields[fi] = slot(self.N[a]); fi += 1
+                elif kind == 'b': pending = a
+                else:
+                    ch = rec(a)
+                    if ch is None: return None
+                    ch = cp(ch)
+                    if pending is not None: fields[fi] = Struct({0: slot(self.N[pending]), 1: ch}, 'Bind'); pending = None
+                    else: fields[fi] = ch
+                    fi += 1
+            cell = {'n': Enum(self.S.enums[self.lang + '::' + vname], Struct(fields), self.lang)}
+            r = self.ex.call(self.M('EGraph::lookup'), [self.egref, Ref(cell, 'n')])
+            return r.payload.f[0] if r.disc == 1 else None
+        return rec(term)
+    def describe_handle(self, h):
+        c = self.ex.call(self.M('EGraph::find_applied_id'), [self.egref, Ref({'h': h}, 'h')])
+        return {'id': conc(c.f[0].f[0]), 'vals': [p.f[1].f[0] for p in c.f[1].f[0].items]}
+    def fingerprint(self):
+        ex = self.ex
+        pr = ex.call(self.M('EGraph::progress'), [self.egref])
+        return ([conc(pr.f[i]) for i in range(4)], conc(ex.call(self.M('EGraph::total_number_of_nodes'), [self.egref])))
 
     # ---- observations
     def eq(self, a, b):
@@ -159,6 +274,8 @@ class SymRun:
         terms = list(self.order)
         canon = []
         for t in terms:
+            if self.handles[t] is None:        # probe of a term that is not represented
+                canon.append(None); continue
             c = ex.call(self.M('EGraph::find_applied_id'), [self.egref, self.href(t)])
             cid = conc(c.f[0].f[0]); pairs = c.f[1].f[0].items
             cellc = {'c': c}
@@ -168,7 +285,7 @@ class SymRun:
             canon.append({'id': cid, 'vals': [p.f[1].f[0] for p in pairs], 'keys': [p.f[0].f[0] for p in pairs], 'idem': idem,
                           'hvals': [p.f[1].f[0] for p in self.handles[t].f[1].f[0].items]})
         snap['canon'] = canon
-        snap['eq'] = [[self.eq(self.handles[a], self.handles[b]) for b in terms] for a in terms]
+        snap['eq'] = [[(self.eq(self.handles[a], self.handles[b]) if self.handles[a] is not None and self.handles[b] is not None else False) for b in terms] for a in terms]
         ids = ex.call(self.M('EGraph::ids'), [self.egref])
         live = [conc(i.f[0]) for i in ids.items]
         snap['live'] = live
@@ -183,7 +300,7 @@ class SymRun:
             if self.t.analysis != '()':
                 cls[i]['data'] = conc(dd(ex.call(self.M('EGraph::analysis_data'), [self.egref, idv])))
         snap['classes'] = cls
-        if self.opts.get('check', True):
+        if self.opts.get('check', True) and (not self.t.light or len(self.snaps) == len(self.t.ops)):
             snap['check'] = self.run_check()
         if getattr(self, 'extra', None): snap.update(self.extra); self.extra = None
         if op[0] == 'union': snap['union_ret'] = self.last_union
@@ -266,6 +383,10 @@ def name_of_value(v, N, vals, model):
         if nv == x: return i
     return 'x%d' % x
 
+def norm_fresh(v):
+    """slots invented by the crate are reported as 'fresh' (their numbers depend on the counter)"""
+    return 'fresh' if v.startswith('x') else v
+
 def concretize(run, ex):
     """one record per coincidence pattern admitted by the finished path"""
     recs = []
@@ -275,10 +396,13 @@ def concretize(run, ex):
         for s in run.snaps:
             st = {k: v for k, v in s.items() if k not in ('canon',)}
             st['op'] = list(s['op'])
-            st['canon'] = [{'id': c['id'], 'idem': c['idem'], 'nslots': len(c['vals']),
+            st['canon'] = [None if c is None else {'id': c['id'], 'idem': c['idem'], 'nslots': len(c['vals']),
                             'vals': sorted(str(name_of_value(v, N, vals, model)) for v in c['vals']),
                             'map': sorted((str(name_of_value(k, N, vals, model)), str(name_of_value(v, N, vals, model))) for k, v in zip(c['keys'], c['vals'])),
                             'hvals': sorted(str(name_of_value(v, N, vals, model)) for v in c['hvals'])} for c in s['canon']]
+            if 'ematch' in st:
+                def dh(h): return None if h is None else {'id': h['id'], 'vals': sorted(norm_fresh(str(name_of_value(v, N, vals, model))) for v in h['vals'])}
+                st['ematch'] = {'unchanged': st['ematch']['unchanged'], 'matches': sorted(({'bound': mt['bound'], 'found': mt['found'], 'inst': dh(mt['inst']), 'binds': {k: dh(v) for k, v in mt['binds'].items()}} for mt in st['ematch']['matches']), key=lambda x: json.dumps(x, sort_keys=True))}
             st['classes'] = {str(k): v for k, v in s['classes'].items()}
             steps.append(st)
         recs.append({'pattern': list(pat), 'values': vals, 'steps': steps, 'panic': run.panic})
